@@ -103,7 +103,7 @@ pub fn meta(id: &str) -> Option<CheckMeta> {
         "C17" => Some(CheckMeta {
             id: "C17",
             level: "exploration",
-            rule: "on raindb's own TmpFileSystem (real files, real flock) 2-6 threads execute generated programs over Open / Close / Destroy / Write (through an owned handle) in 2-8 rounds; all operations of a round are released together by a barrier. A harness-side owner ledger judges every round: while a handle that is not being closed in that round is alive, every open and every destroy_database must fail; when nobody holds the database, at most one of the racing opens succeeds and (absent a racing destroy or close) exactly one does; after every round each owner reads back up to 40 acknowledged keys and writes a probe key (failed attempts do not disturb the running instance); at the end the database opens, holds every acknowledged key, refuses destroy while open and is destroyed after close. Non-trivial = a round with >=2 attempts against a live owner, opens racing with a close, or >=2 racing opens without an owner; distinct by case hash".into(),
+            rule: "on raindb's own TmpFileSystem (real files, real flock) 2-6 threads execute generated programs over Open / OpenRetry (keep trying for 25 ms, so that the attempt lands inside another thread's close) / Close / WriteClose (write 40 values so that flushes and compactions are in flight, then close at once) / Destroy / Write (through an owned handle) in 2-8 rounds; all operations of a round are released together by a barrier. A harness-side owner ledger judges every round: while a handle that is not being closed in that round is alive, every open and every destroy_database must fail; when nobody holds the database, at most one of the racing opens succeeds and (absent a racing destroy or close) exactly one does; after every round each owner reads back up to 40 acknowledged keys and writes a probe key (failed attempts do not disturb the running instance); a filesystem wrapper stamps every mutating call, and once an open has succeeded no background thread of an earlier instance may still modify the directory (an instance keeps its ownership until it has finished closing); at the end the database opens, holds every acknowledged key, refuses destroy while open and is destroyed after close. Non-trivial = a round with >=2 attempts against a live owner, opens racing with a close, or >=2 racing opens without an owner; distinct by case hash".into(),
             assumptions: vec!["uses real files under the system temp directory (removed when the case ends)".into()],
         }),
         "C12" => Some(CheckMeta {
